@@ -455,4 +455,14 @@ def R5_adjacency(ctx):
     R1_adjacency(ctx)
 
 
-RULES = [R1_R2_dfs, R2_passes, R3_largest, R_graph_roles, R5_adjacency]
+def RA_adjacency_container(ctx):
+    """the adjacency lists are CompactOrderedHashMaps: what a search sees of a vertex is keys()/iter() of that map, what the loader
+    stored is insert().  The container's own rules (every accessor agrees on the slots, growth keeps every entry, dense indices)
+    are therefore part of this property too (shared with C11.R1-R3)."""
+    from props.C11 import R1_slot_table, R2_growth, R3_dense_index
+    R1_slot_table(ctx)
+    R2_growth(ctx)
+    R3_dense_index(ctx)
+
+
+RULES = [R1_R2_dfs, R2_passes, R3_largest, R_graph_roles, R5_adjacency, RA_adjacency_container]
